@@ -14,6 +14,7 @@ from collections import defaultdict, deque
 
 ROOT = os.path.dirname(os.path.dirname(os.path.abspath(__file__)))
 NPROC = int(os.environ.get("VERIF_JOBS", "16"))
+REPO = os.environ.get("VERIF_REPO", "/repo")
 
 
 def load(pid):
@@ -92,8 +93,8 @@ def _work(job):
             if event == "call":
                 co = frame.f_code
                 f = co.co_filename
-                if f.startswith("/repo/synkit/"):
-                    prof_funcs.add(f[len("/repo/"):] + ":" + co.co_qualname)
+                if f.startswith(REPO + "/synkit/"):
+                    prof_funcs.add(f[len(REPO) + 1:] + ":" + co.co_qualname)
 
     stop = False
     while eng.frontier and not stop and time.monotonic() < t_end:
@@ -334,7 +335,7 @@ def replay_file(path):
 
 
 def replay_subprocess(path):
-    env = dict(os.environ, PYTHONHASHSEED="0", PYTHONPATH="/repo:" + ROOT)
+    env = dict(os.environ, PYTHONHASHSEED="0", PYTHONPATH=REPO + ":" + ROOT)
     p = subprocess.run([sys.executable, "-m", "vf.cli", "--replay", path], cwd=ROOT, env=env,
                        capture_output=True, text=True, timeout=600)
     return p.returncode == 1, p.stdout + p.stderr
